@@ -14,8 +14,16 @@
 (* addresses of each page, seeds the next request with the last address of *)
 (* the page, and stops at the terminator 0.0.0.0:0, which is not returned. *)
 (***************************************************************************)
+(* The service object keeps no request state between calls: the request of  *)
+(* a call encodes that call's region, seed and filters whatever the object  *)
+(* was used for before.  Preludes lists the earlier uses the replay puts in *)
+(* front of the checked call (a complete query with other filters that      *)
+(* succeeded / failed on its second page / met a malformed first page /     *)
+(* timed out).                                                              *)
+(***************************************************************************)
 EXTENDS Naturals, Sequences, FiniteSets, TLC, Json
 
+Preludes == {"none", "succeeds", "fails_page2", "malformed_first", "times_out"}
 CONSTANTS MaxInserts, Vals, MaxPages, PageLens, Emit, Mode   \* Mode: "filters" | "paging" | "bulk"
 
 Groups == {"plain", "nand", "nor"}
